@@ -167,7 +167,8 @@ class Cases:
 
     def suffixes(self, base):
         label, root, b, info = base
-        sfx = self.rng.choice([b"\x00", b"\xff\x01", bytes(self.rng.randrange(256) for _ in range(self.rng.randrange(1, 12)))])
+        sfx = self.rng.choice([b"\x00", b"\xff\x01", bytes(self.rng.randrange(256) for _ in range(self.rng.randrange(1, 12))),
+                               bytes(self.rng.randrange(256) for _ in range(self.rng.choice([63, 64, 65, 100, 257, 300])))])
         return [("suffix", root, b + sfx, {"suffix": sfx, "full": b})]
 
     # G4: arbitrary
